@@ -180,7 +180,7 @@ def bounded_candidate(obl, timeout_ms=20000):
     return None
 
 
-def discharge(obl, tier='quick', second_opinion=False):
+def discharge(obl, tier='quick', second_opinion=False, cvc5_ok=True):
     """returns dict(status, backend, seconds, model, quantified)"""
     rl = RLIMIT_QUICK if tier == 'quick' else RLIMIT_THOROUGH
     if z3.is_true(obl.goal):
@@ -218,8 +218,14 @@ def discharge(obl, tier='quick', second_opinion=False):
             res['candidate_model'] = cm
     except Exception as e:
         res['candidate_error'] = f'{type(e).__name__}: {e}'
+    if not cvc5_ok:
+        # the fallback budget of this contract is used up (only happens when many obligations are already open or refuted)
+        res['status'] = 'unknown'
+        res['cvc5'] = 'skipped:budget'
+        return res
     r2, dt2 = check_cvc5(obl, 20 if tier == 'quick' else 120)
     res['cvc5'] = r2
+    res['cvc5_fallback_seconds'] = dt2
     res['seconds'] += dt2
     if r2 == 'unsat':
         res['status'] = 'proved'
